@@ -108,9 +108,10 @@ impl ProcOut {
     pub fn ok(&self) -> bool {
         self.code == Some(0)
     }
-    /// a refusal: ska's own non-zero exit (panic = 101, exit(1), clap usage error = 2)
+    /// a refusal: ska's own non-zero exit (panic = 101, exit(1), clap usage error = 2, or any other code)
     pub fn refused(&self) -> bool {
-        matches!(self.code, Some(101) | Some(1) | Some(2))
+        // which non-zero status a refusal uses is nobody's property (3 and 4 are the simulator's own)
+        matches!(self.code, Some(c) if c != 0 && c != 3 && c != 4)
     }
     pub fn sim_failed(&self) -> bool {
         self.code == Some(3)
@@ -209,6 +210,7 @@ fn account(p: &Proc, out: &ProcOut) {
     if out.sim_failed() {
         a.sim_failures.fetch_add(1, Ordering::Relaxed);
     }
+
     if let Some(s) = &out.stats {
         a.steps.fetch_add(s.steps, Ordering::Relaxed);
         a.switches.fetch_add(s.switches, Ordering::Relaxed);
@@ -397,6 +399,9 @@ pub fn run_proc(dir: &RunDir, p: &Proc, log: &mut Vec<String>) -> Result<ProcOut
         )));
     }
     account(p, &po);
+    if po.code == Some(4) {
+        return Err(HarnessError(format!("a simulated process reached the step cap (SKASIM_MAXSTEPS): {:?}", p.argv)));
+    }
     log.push(format!(
         "proc {:?} seed={} cores={} policy={} hooks={:x} fsize={:?} -> {} steps={} trace={} stdout={:016x}",
         p.argv,
